@@ -4,16 +4,22 @@ from .. import bodies
 from ..bodies import LEAF_PROGRAM
 from ..diff import Case, account
 from ..runner import Acc
-from ..terms import F, C, V, A
+from ..terms import F, C, V, A, call, CUT
 
 NSHARDS = 64
 
 
-def tree_case(tree, continuation=False, extra_script=False, prefix=False, suffix=0, one_unit=False, wrapped=False):
+def tree_case(tree, continuation=False, extra_script=False, prefix=False, suffix=0, one_unit=False, wrapped=False, deep_guards=0):
     """one_unit: the leaf predicates are defined in the SAME compilation unit as the clause under test
     (whatever a compiler concludes from seeing all of their clauses), and each of them has one more
     answer at run time that the unit does not show: a dynamic fact"""
     body, k = bodies.instantiate(tree)
+    if deep_guards:
+        # N guard goals o(G) on one body-local variable and a cut in front of the body: the clause gets
+        # deep without its head (and the heads of the other clauses of p) getting wide
+        body = (',', CUT, body)
+        for _ in range(deep_guards):
+            body = (',', call(F('o', V('G'))), body)
     prog, nargs = bodies.context_program(body, k, continuation=continuation, prefix=prefix, suffix=suffix, wrapped=wrapped)
     if _has_leaf(tree, 'j'):
         prog = prog + bodies.KK_CLAUSES
